@@ -238,14 +238,15 @@ theorem conv_pair (s : Schema) (d : Document) (hq : s.queryType.isSome = true) (
 
 /-! ### the fuel-free reading of 5.3.2 and the descent -/
 
-/-- some finite unrolling of FieldsInSetCanMerge fails for some selection set of the document -/
+/-- some finite unrolling of FieldsInSetCanMerge - at least as deep as the executable spec's own
+    fuel - fails for some selection set of the document -/
 def MergeViolatedEx (s : Schema) (d : Document) : Prop :=
-  ∃ sf nf sel env, (Ev.enter (.selectionSet sel), env) ∈ walkOf s d ∧
+  ∃ sf nf, spreadFuelOf d ≤ sf ∧ nestFuelOf d ≤ nf ∧ ∃ sel env, (Ev.enter (.selectionSet sel), env) ∈ walkOf s d ∧
     fieldsInSetCanMerge s d sf nf (specFields s d sf env.parent sel) = false
 
 theorem mergeViolatedEx_of_violated (s : Schema) (d : Document) (h : MergeViolated s d) : MergeViolatedEx s d := by
   obtain ⟨sel, env, hm, hf⟩ := h
-  exact ⟨_, _, sel, env, hm, hf⟩
+  exact ⟨_, _, Nat.le_refl _, Nat.le_refl _, sel, env, hm, hf⟩
 
 /-- two different members of a visited set whose test fails in both orders -/
 theorem violated_of_two (s : Schema) (d : Document) (parent : Option TypeDef) (sel : List Selection) (hr : Reg s d parent sel)
@@ -256,7 +257,7 @@ theorem violated_of_two (s : Schema) (d : Document) (parent : Option TypeDef) (s
   obtain ⟨nb, hb⟩ := hb
   obtain ⟨s1, n1, f1⟩ := h1
   obtain ⟨s2, n2, f2⟩ := h2
-  refine ⟨max (max na nb) (max s1 s2), max n1 n2 + 1, sel, env, hm, ?_⟩
+  refine ⟨max (max (max na nb) (max s1 s2)) (spreadFuelOf d), max (max n1 n2) (nestFuelOf d) + 1, by omega, by omega, sel, env, hm, ?_⟩
   rw [cm_succ]
   exact allPairs_false_mem _ _ a b (specFields_mono_le s d _ _ (by omega) ha) (specFields_mono_le s d _ _ (by omega) hb) hne hk
     (f1 _ _ (by omega) (by omega)) (f2 _ _ (by omega) (by omega))
